@@ -94,12 +94,15 @@ func (a *ActionEmit) RunPass(ctx *Context, pass Pass) {
 			ctx.Errs.Errorf(ctx.Position(a), "undefined: %v", a.Name)
 			return
 		}
-		tr, ok := ast.(*TokenRule)
-		if !ok {
+		switch ast := ast.(type) {
+		case *TokenRule:
+			a.Terminal = ast.Terminal
+		case *ExternalName:
+			a.Terminal = ast.Terminal
+		default:
 			ctx.Errs.Errorf(ctx.Position(a), "not a token: %v", a.Name)
 			return
 		}
-		a.Terminal = tr.Terminal
 	}
 }
 
